@@ -10,7 +10,8 @@ RULE = ("A case is (protocol version, check style CRC-8/additive, with/without m
         "are compared with the vendor decode of the body; sensors by the property's relational rule. Parts: "
         "'sensors' = 256 x 10 (byte, tenths) x {indoor,outdoor} x {C,F}; 'setpoint_codes' = 32 alternate x 32 primary "
         "codes; 'flag_bytes' = all 256 values of body bytes 1,2,3,7,8,9,10,13,14,19,21 with the other bytes random; "
-        "'lengths' = body lengths 16..40; 'random' = random bodies. Distinct = distinct body; non-trivial = every case.")
+        "'lengths' = body lengths 16..40, each seen by one object between longer and shorter reports; 'random' = random "
+        "bodies of mixed lengths. One run in eight has the msmart loggers at DEBUG with a formatting handler. Distinct = distinct body; non-trivial = every case.")
 ASSUMPTIONS = [
     "vendor decode = refmodel/acmodel.decode_state (Lua binToModel lines 1664-1836) with the choices of DESIGN 5.3: "
     "fan asserted for report bytes 0..127, swing asserted for the four meaningful nibbles, mode asserted for 1..6, "
@@ -199,11 +200,14 @@ def space(tier):
 
     def f_len(j, rng):
         n = 16 + j % 25
-        return mk([rand_body(rng, n) for _ in range(4)], j, rng, with_msgid=bool((j // 25) % 2))
+        # the same object sees a long report, then the short one, then a long one again: history must not leak
+        other = rng.choice([24, 25, 30, 22, 16, 18])
+        return mk([rand_body(rng, other), rand_body(rng, n), rand_body(rng, n), rand_body(rng, other), rand_body(rng, n)],
+                  j, rng, with_msgid=bool((j // 25) % 2))
     sp.add("lengths", 25 * 2 * (4 if tier == "quick" else 40), f_len, exhaustive=True)
 
     def f_rand(j, rng):
-        p = mk([rand_body(rng, rng.choice([24, 24, 22, 25, 30])) for _ in range(16)], j, rng)
+        p = mk([rand_body(rng, rng.choice([24, 24, 22, 25, 30, 16, 18, 20])) for _ in range(16)], j, rng)
         p["non_custom_fan"] = (j % 3 == 0)
         p["repeat"] = (j % 4 == 1)
         p["stale_first"] = (j % 4 == 3)        # odd j = V3 (the two frames share one segment)
